@@ -82,6 +82,7 @@ def conformance(d, traces, chunk=200):
 def unique_key_present():
     """The unique index on task_executions_v2.unique_key (JoinRace.UseUniqueKey) - read from the live schema."""
     from harness import mdb
+    mdb.boot()
     for (seq, name, unique, origin, partial) in mdb.raw_rows("PRAGMA index_list('task_executions_v2')"):
         if unique:
             cols = [r[2] for r in mdb.raw_rows("PRAGMA index_info('%s')" % name)]
